@@ -112,7 +112,14 @@ class InPl(Transformer_InPlace):
     def null(self, c): return None
     def num(self, c): return int(c[0])
 
+class Pos(Transformer):
+    # terminal callbacks that read the token's own coordinates: every occurrence must be transformed on its own
+    def NAME(self, t): return (str(t), t.line, t.column, t.start_pos, t.end_pos)
+    def NUM(self, t): return (int(t), t.start_pos)
+    def item(self, c): return tuple(c)
+
 SC = [
+    ('start: item+\nitem: NAME ":" NUM | NAME\nNAME: /[a-z]+/\nNUM: /[0-9]+/\n%ignore /[ ,\\n]+/', Pos, ['a:1, b, a:1, a', 'x\nx x\nx:2 x:2', 'q']),
     ('start: expr\n?expr: num | expr "+" num -> add | "-" num -> neg\nnum: NUM\nNUM: /[0-9]+/\n%ignore " "', Calc, ['1', '1+2', '1+2+3', '-4']),
     ('!start: NAME _ASSIGN NAME\n_ASSIGN: "="\nNAME: /[a-z]+/', Calc, ['a=b']),
     ('start: x\n?x: NUM "+" NUM -> add | NUM "-" NUM -> sub\nNUM: /[0-9]/', Shared, ['1+2', '3-1']),
